@@ -195,6 +195,14 @@ def run_case(case):
     names = [str(c) for c in r.permutation([c for c, _, _ in bc])]
     try:
         units = {c: u.Unit(us) for c, us, _ in bc}
+        # first in other, equivalent units (the same object is packed again below: a later pack must not reuse this one's values)
+        alt = {c: {u.day: u.yr, u.km / u.s: u.m / u.s, u.rad: u.deg, u.m / u.s: u.km / u.s, u.deg: u.rad}.get(un_, un_) for c, un_ in units.items()}
+        packed_a, out_a = s.pack(units=dict(alt), names=names, nonlinear_only=False)
+        for j, c in enumerate(names):
+            want = np.asarray(s[c].to_value(alt[c]), float)
+            if out_a[c] != alt[c] or packed_a.shape != (len(s), len(names)) or not np.allclose(packed_a[:, j], want, rtol=1e-12, atol=0):
+                problems.append(f"pack(units={alt[c]}) column {c}: {packed_a[:3, j]} {out_a[c]} but the table holds {want[:3]} {alt[c]}")
+                break
         packed, out_units = s.pack(units=dict(units), names=names, nonlinear_only=False)
         un = JokerSamples.unpack(packed, out_units, t_ref=s.t_ref, poly_trend=s.poly_trend, n_offsets=s.n_offsets)
         ut = table_of(un)
